@@ -26,6 +26,15 @@ type Solver struct {
 	Time    time.Duration
 	log     io.Writer
 	sb      strings.Builder
+	stack   []*Term // asserted path-condition entries, one solver frame each
+	frames  []frameDefs
+}
+
+// frameDefs records what was declared/defined inside one solver frame (undone by pop).
+type frameDefs struct {
+	ids   []int64
+	names []string
+	funs  []string
 }
 
 func NewSolver(bin []string, log io.Writer) *Solver {
@@ -53,7 +62,9 @@ func (s *Solver) prelude() {
 	s.funs = map[string]bool{}
 	s.depth = 0
 	s.items = 0
-	s.send("(set-option :global-declarations true)\n(set-option :timeout 20000)\n(declare-sort S 0)\n")
+	s.stack = nil
+	s.frames = []frameDefs{{}}
+	s.send("(set-option :timeout 20000)\n(declare-sort S 0)\n")
 }
 
 func (s *Solver) Close() {
@@ -73,24 +84,71 @@ func (s *Solver) send(str string) {
 	s.in.WriteString(str)
 }
 
-// NewItem resets the assertion stack for a new work item.
-func (s *Solver) NewItem() {
+// NewItem aligns the assertion stack with the path condition pc of a new work item, reusing the
+// frames of the common prefix with what is currently asserted (siblings share most of it).
+func (s *Solver) NewItem(pc []*Term) {
 	s.items++
-	if s.items > 400 {
+	if s.items > 2000 {
 		// bound solver memory: restart the process
 		s.Close()
 		s.start()
 	}
-	if s.depth > 0 {
-		s.send(fmt.Sprintf("(pop %d)\n", s.depth))
-		s.depth = 0
+	// drop temporary frames above the recorded stack
+	if s.depth > len(s.stack) {
+		s.popN(s.depth - len(s.stack))
 	}
-	s.send("(push 1)\n")
-	s.depth = 1
+	k := 0
+	for k < len(pc) && k < len(s.stack) && s.stack[k] == pc[k] {
+		k++
+	}
+	if k < len(s.stack) {
+		s.popN(len(s.stack) - k)
+		s.stack = s.stack[:k]
+	}
+	for _, t := range pc[k:] {
+		s.AssertFrame(t)
+	}
 }
 
-func (s *Solver) Push() { s.send("(push 1)\n"); s.depth++ }
-func (s *Solver) Pop()  { s.send("(pop 1)\n"); s.depth-- }
+// AssertFrame asserts t in a new frame that belongs to the path condition.
+func (s *Solver) AssertFrame(t *Term) {
+	if s.depth > len(s.stack) {
+		s.popN(s.depth - len(s.stack))
+	}
+	s.Push()
+	r := s.ref(t)
+	s.send("(assert " + r + ")\n")
+	s.stack = append(s.stack, t)
+}
+
+func (s *Solver) Push() {
+	s.send("(push 1)\n")
+	s.depth++
+	s.frames = append(s.frames, frameDefs{})
+}
+
+func (s *Solver) Pop() { s.popN(1) }
+
+func (s *Solver) popN(n int) {
+	if n <= 0 {
+		return
+	}
+	s.send(fmt.Sprintf("(pop %d)\n", n))
+	for i := 0; i < n; i++ {
+		f := s.frames[len(s.frames)-1]
+		s.frames = s.frames[:len(s.frames)-1]
+		for _, id := range f.ids {
+			delete(s.defined, id)
+		}
+		for _, nm := range f.names {
+			delete(s.vars, nm)
+		}
+		for _, fn := range f.funs {
+			delete(s.funs, fn)
+		}
+	}
+	s.depth -= n
+}
 
 // ref returns the SMT-LIB reference for t, emitting definitions as needed.
 func (s *Solver) ref(t *Term) string {
@@ -107,6 +165,8 @@ func (s *Solver) ref(t *Term) string {
 		if _, ok := s.vars[t.name]; !ok {
 			s.vars[t.name] = t.sort
 			s.send("(declare-const " + t.name + " " + t.sort.smt() + ")\n")
+			f := &s.frames[len(s.frames)-1]
+			f.names = append(f.names, t.name)
 		}
 		return t.name
 	}
@@ -129,6 +189,8 @@ func (s *Solver) ref(t *Term) string {
 	case OApp:
 		if !s.funs[t.name] {
 			s.funs[t.name] = true
+			ff := &s.frames[len(s.frames)-1]
+			ff.funs = append(ff.funs, t.name)
 			var as []string
 			for _, a := range t.args {
 				as = append(as, a.sort.smt())
@@ -136,7 +198,6 @@ func (s *Solver) ref(t *Term) string {
 			s.send(fmt.Sprintf("(declare-fun %s (%s) %s)\n", smtSym(t.name), strings.Join(as, " "), t.sort.smt()))
 		}
 		if len(args) == 0 {
-			s.defined[t.id] = true
 			return smtSym(t.name)
 		}
 		body = "(" + smtSym(t.name) + " " + strings.Join(args, " ") + ")"
@@ -145,6 +206,8 @@ func (s *Solver) ref(t *Term) string {
 	}
 	s.send("(define-fun " + name + " () " + t.sort.smt() + " " + body + ")\n")
 	s.defined[t.id] = true
+	fd := &s.frames[len(s.frames)-1]
+	fd.ids = append(fd.ids, t.id)
 	return name
 }
 
@@ -226,25 +289,65 @@ func (s *Solver) CheckWith(extra *Term) SatResult {
 	return r
 }
 
-// Model fetches values for the given variables (after a sat answer).
-func (s *Solver) Model(vars []*Term) (map[string]uint64, bool) {
-	m := map[string]uint64{}
-	if len(vars) == 0 {
-		return m, true
+// sexp is a parsed s-expression.
+type sexp struct {
+	atom string
+	list []*sexp
+}
+
+func parseSexp(toks []string, pos *int) *sexp {
+	if *pos >= len(toks) {
+		return nil
 	}
-	var names []string
-	for _, v := range vars {
-		if v.sort == SStr {
-			continue
+	t := toks[*pos]
+	*pos++
+	if t != "(" {
+		return &sexp{atom: t}
+	}
+	n := &sexp{}
+	for *pos < len(toks) && toks[*pos] != ")" {
+		n.list = append(n.list, parseSexp(toks, pos))
+	}
+	*pos++
+	return n
+}
+
+func sexpValue(v *sexp) (uint64, bool) {
+	if v == nil {
+		return 0, false
+	}
+	if v.list == nil {
+		val := v.atom
+		switch {
+		case val == "true":
+			return 1, true
+		case val == "false":
+			return 0, true
+		case strings.HasPrefix(val, "#x"):
+			if len(val) > 18 {
+				return 0, false
+			}
+			x, err := strconv.ParseUint(val[2:], 16, 64)
+			return x, err == nil
+		case strings.HasPrefix(val, "#b"):
+			if len(val) > 66 {
+				return 0, false
+			}
+			x, err := strconv.ParseUint(val[2:], 2, 64)
+			return x, err == nil
 		}
-		names = append(names, s.ref(v))
+		return 0, false
 	}
-	if len(names) == 0 {
-		return m, true
+	// (_ bvN w)
+	if len(v.list) == 3 && v.list[0].atom == "_" && strings.HasPrefix(v.list[1].atom, "bv") {
+		x, err := strconv.ParseUint(v.list[1].atom[2:], 10, 64)
+		return x, err == nil
 	}
-	s.send("(get-value (" + strings.Join(names, " ") + "))\n")
-	s.in.Flush()
-	// read a balanced s-expression
+	return 0, false
+}
+
+// readSexp reads one balanced s-expression from the solver.
+func (s *Solver) readSexp() (string, bool) {
 	var sb strings.Builder
 	depth := 0
 	started := false
@@ -252,11 +355,18 @@ func (s *Solver) Model(vars []*Term) (map[string]uint64, bool) {
 		line := s.readLine()
 		if strings.HasPrefix(line, "(error") {
 			fmt.Fprintf(os.Stderr, "solver error in get-value: %s\n", line)
-			return nil, false
+			return "", false
 		}
 		sb.WriteString(line)
 		sb.WriteByte(' ')
+		inBar := false
 		for _, c := range line {
+			if c == '|' {
+				inBar = !inBar
+			}
+			if inBar {
+				continue
+			}
 			if c == '(' {
 				depth++
 				started = true
@@ -267,56 +377,64 @@ func (s *Solver) Model(vars []*Term) (map[string]uint64, bool) {
 		if started && depth <= 0 {
 			break
 		}
-	}
-	txt := sb.String()
-	// parse pairs (name value)
-	toks := tokenize(txt)
-	// expected: ( ( name val ) ( name val ) ... )
-	i := 0
-	next := func() string {
-		if i < len(toks) {
-			i++
-			return toks[i-1]
-		}
-		return ""
-	}
-	if next() != "(" {
-		return nil, false
-	}
-	for i < len(toks) {
-		tk := next()
-		if tk == ")" {
+		if !started {
 			break
 		}
-		if tk != "(" {
-			return nil, false
+	}
+	return sb.String(), true
+}
+
+// Model fetches values for the given variables and application terms (after a sat answer).
+// Values are returned positionally: vals[i] belongs to terms[i]; ok[i] false if not representable.
+func (s *Solver) Values(terms []*Term) ([]uint64, []bool, bool) {
+	vals := make([]uint64, len(terms))
+	oks := make([]bool, len(terms))
+	if len(terms) == 0 {
+		return vals, oks, true
+	}
+	names := make([]string, len(terms))
+	for i, t := range terms {
+		names[i] = s.ref(t)
+	}
+	t0 := time.Now()
+	s.send("(get-value (" + strings.Join(names, " ") + "))\n")
+	s.in.Flush()
+	txt, ok := s.readSexp()
+	s.Time += time.Since(t0)
+	if !ok {
+		return nil, nil, false
+	}
+	toks := tokenize(txt)
+	pos := 0
+	root := parseSexp(toks, &pos)
+	if root == nil || len(root.list) != len(terms) {
+		return nil, nil, false
+	}
+	for i, pair := range root.list {
+		if len(pair.list) != 2 {
+			continue
 		}
-		name := next()
-		val := next()
-		var v uint64
-		switch {
-		case val == "true":
-			v = 1
-		case val == "false":
-			v = 0
-		case strings.HasPrefix(val, "#x"):
-			v, _ = strconv.ParseUint(val[2:], 16, 64)
-		case strings.HasPrefix(val, "#b"):
-			v, _ = strconv.ParseUint(val[2:], 2, 64)
-		case val == "(":
-			// (_ bvN w)
-			next() // _
-			bv := next()
-			next() // w
-			next() // )
-			v, _ = strconv.ParseUint(strings.TrimPrefix(bv, "bv"), 10, 64)
-		default:
-			return nil, false
+		vals[i], oks[i] = sexpValue(pair.list[1])
+	}
+	return vals, oks, true
+}
+
+func (s *Solver) Model(vars []*Term) (map[string]uint64, bool) {
+	var ts []*Term
+	for _, v := range vars {
+		if v.sort != SStr && v.sort <= 64 {
+			ts = append(ts, v)
 		}
-		if next() != ")" {
-			return nil, false
+	}
+	vals, oks, ok := s.Values(ts)
+	if !ok {
+		return nil, false
+	}
+	m := map[string]uint64{}
+	for i, t := range ts {
+		if oks[i] {
+			m[t.name] = vals[i]
 		}
-		m[strings.Trim(name, "|")] = v
 	}
 	return m, true
 }
@@ -353,44 +471,9 @@ func tokenize(s string) []string {
 
 // ValueOf returns the value of an arbitrary (≤64-bit or Bool) term in the current model.
 func (s *Solver) ValueOf(t *Term) (uint64, bool) {
-	r := s.ref(t)
-	s.send("(get-value (" + r + "))\n")
-	s.in.Flush()
-	line := s.readLine()
-	depth := strings.Count(line, "(") - strings.Count(line, ")")
-	for depth > 0 {
-		l2 := s.readLine()
-		line += " " + l2
-		depth += strings.Count(l2, "(") - strings.Count(l2, ")")
-	}
-	if strings.HasPrefix(line, "(error") {
+	vals, oks, ok := s.Values([]*Term{t})
+	if !ok || !oks[0] {
 		return 0, false
 	}
-	toks := tokenize(line)
-	// ( ( ref val ) )
-	if len(toks) < 5 {
-		return 0, false
-	}
-	// value tokens start after the reference, which may itself be parenthesised; take from the end
-	end := len(toks) - 2 // skip final ") )"
-	val := toks[end-1]
-	switch {
-	case val == "true":
-		return 1, true
-	case val == "false":
-		return 0, true
-	case strings.HasPrefix(val, "#x"):
-		v, err := strconv.ParseUint(val[2:], 16, 64)
-		return v, err == nil
-	case strings.HasPrefix(val, "#b"):
-		v, err := strconv.ParseUint(val[2:], 2, 64)
-		return v, err == nil
-	case val == ")":
-		// (_ bvN w)
-		if end-4 >= 0 && strings.HasPrefix(toks[end-3], "bv") {
-			v, err := strconv.ParseUint(toks[end-3][2:], 10, 64)
-			return v, err == nil
-		}
-	}
-	return 0, false
+	return vals[0], true
 }
